@@ -259,7 +259,7 @@ func (c *ctx) runEngine(e *Engine, onlyCase int) *engineResult {
 		rep = 1
 	}
 	if to <= 0 {
-		to = 20 * time.Minute
+		to = 8 * time.Minute
 		if c.tier == "thorough" {
 			to = 6 * time.Hour
 		}
